@@ -347,6 +347,11 @@ func (s *sys) Apply(op string) (obs, class string, viols []bfs.Viol) {
 		if hdr == nil {
 			return "no header", "update: no further header in the fixture", nil
 		}
+		// the local clock follows the counterparty's (a header from the future is legitimately refused)
+		if th, ok := hdr.(interface{ GetTime() time.Time }); ok && !th.GetTime().Before(s.now) {
+			s.now = th.GetTime().Add(time.Second)
+			s.ctx = s.ctx.WithBlockTime(s.now)
+		}
 		signer := s.f.relayer
 		if s.typ == "tss" {
 			signer = s.f.tssAcc
